@@ -92,6 +92,11 @@ CHECKS = {
          "Forward: for HSL, HSV, HWB of every RGB standard, Okhsl, Okhsv, Okhwb and HSLuv (f32/f64; 8 compiler-discovered graphs) every cylinder grid point whose saturation-like and lightness-like components lie within the documented bounds (bounds included; w+b <= 1 for the HWB forms) must convert to RGB components in [0,1] up to the tolerance. Reverse: every in-gamut RGB colour of the grid (complete 256^3 for the sRGB-rooted graph) must convert into each space within its bounds and back to the same RGB colour. The geometric spaces hold to rounding accuracy; HSLuv and the Ok spaces to the accuracy of their published gamut approximations.",
          "Tolerances: 1e-12 (f64) / 2e-6 (f32) for the geometric spaces; for HSLuv and the Ok spaces the measured accuracy of the published algorithm with 2x slack (forward 4e-3 / 5e-3, bounds 1e-3 / 2.3e-2) - that palette follows those algorithms is C02's claim. Two findings recorded (blue-primary discontinuity, HSLuv saturation at white).",
          "§4 C15"),
+ "C09": ("model_checking",
+         "exhaustive enumeration of all ordered pairs of a Lab/Lch lattice (2.5k colours: 11.9 M ordered pairs per type and float, every hue-case combination of CIEDE2000 occurring >= 17k times), of all 256 x 256 grey pairs, of a 9^3 / 17^3 colour grid and of all 2^24 Srgb<u8> colours (luminance), on the real difference and contrast code, against f64 reference formulas validated in-run on Sharma's 34 published pairs",
+         "CIEDE2000 for every ordered pair against the Sharma/Wu/Dalal reference with a +-4-ulp backward-error envelope, excluding (and counting) only pairs within rounding of |dh'| = 180 deg; DeltaE, the improved variants, HyAB and Euclidean distance against their closed forms for Lab, Lch, Luv, Oklab, Cam16UcsJab/Jmh, Rgb, Xyz, Yxy, Luma; polar forms against rectangular forms on colours converted by palette itself; d >= 0, symmetry, d(x,x) = 0 exactly for every pair; WCAG relative luminance of all 2^24 8-bit sRGB colours (range, monotone along all 3 x 65 536 channel chains), contrast ratio symmetric and in [1, 21], every has_* predicate (both traits) equivalent to its documented threshold on the returned ratio.",
+         "Luminance reference accepts the interval between WCAG's printed coefficients and the 7-digit matrix row palette uses, and the IEC knee palette documents; Sharma's formula itself jumps by 5e-6*dE at h1'+h2' = 360, pairs within rounding of it get that allowance.",
+         "§4 C09"),
 }
 PENDING = {}
 ALL = ["C%02d" % i for i in range(1, 21)]
